@@ -85,6 +85,12 @@ class Kernel:
         self.current = main
         self._tls = threading.local()
         self._tls.task = main
+        # optional fine-grained pre-emption: line events of the code under test become extra yield points
+        self.preempt_p = float(sched.get('preempt_p', 0) or 0)
+        self.preempt_prefix = sched.get('preempt_prefix')
+        self.preempt_rng = subrng(sched.get('seed', seed), 'preempt')
+        self.preemptions = 0
+        self.lines = 0
 
     # ------------------------------------------------------------------ logging
     def record(self, actor, op, *args):
@@ -230,6 +236,42 @@ class Kernel:
         if self.now < target:
             self.now = target
 
+    # line-level pre-emption ---------------------------------------------------
+    def tracer(self):
+        """A sys.settrace function for one task's thread (None when pre-emption is off)."""
+        if not self.preempt_p or not self.preempt_prefix:
+            return None
+        prefix = self.preempt_prefix
+        k = self
+
+        def local(frame, event, arg):
+            if event == 'line' and k.outcome is None:
+                # computation takes (virtual) time too: 1 us per 16 lines, so that other tasks' I/O completes while this one computes
+                k.lines += 1
+                if not k.lines & 15:
+                    k.now += 1
+                if k.preempt_rng.random() < k.preempt_p:
+                    k.preempt()
+            return local
+
+        def glob(frame, event, arg):
+            if event == 'call' and frame.f_code.co_filename.startswith(prefix):
+                return local
+            return None
+        return glob
+
+    def preempt(self):
+        """Involuntary switch: hand the baton to *another* ready task (whatever the policy), if there is one."""
+        me = self._tls.task
+        self._run_due()
+        others = [t for t in self.tasks if t is not me and self._ready(t)]
+        if not others:
+            return
+        self.preemptions += 1
+        nxt = others[self.preempt_rng.randrange(len(others))]
+        me.pred, me.deadline = None, None
+        self._switch(me, nxt)
+
     # thread lifecycle (used by the executor model) ---------------------------
     def spawn(self, name, fn):
         """Create a task backed by a real thread.  It starts parked; it runs only when scheduled."""
@@ -238,6 +280,10 @@ class Kernel:
         def boot():
             task.sem.acquire()
             self._tls.task = task
+            tr = self.tracer()
+            if tr is not None:
+                import sys
+                sys.settrace(tr)
             try:
                 fn()
             except SimAbort:
